@@ -345,19 +345,19 @@ class TypeChecker(walkers.dag.DagWalker):
         if to_skip or right.lower_bound != right.upper_bound:
             pass
         else:
-            left_lower = -float("inf") if left.lower_bound is None else left.lower_bound
-            left_upper = float("inf") if left.upper_bound is None else left.upper_bound
-            right = right.lower_bound
-            lower = min(left_lower / right, left_upper / right)
-            upper = max(left_lower / right, left_upper / right)
-        if lower == -float("inf"):
-            lower = None
-        if upper == float("inf"):
-            upper = None
-        if lower is not None:
-            lower = Fraction(lower)
-        if upper is not None:
-            upper = Fraction(upper)
+            # exact rational arithmetic: float division would round the bounds
+            # and make the interval exclude the exact quotient (e.g. 1/3)
+            divisor = Fraction(right.lower_bound)
+            if divisor == 0:
+                raise ZeroDivisionError("division by zero")
+            quotients = [
+                None if b is None else Fraction(b) / divisor
+                for b in (left.lower_bound, left.upper_bound)
+            ]
+            if divisor > 0:
+                lower, upper = quotients
+            else:
+                upper, lower = quotients
         return self.environment.type_manager.RealType(lower, upper)
 
     @walkers.handles(OperatorKind.LE, OperatorKind.LT)
